@@ -386,3 +386,120 @@ Theorem C07_no_lost_update_new_file : forall cfg f s i g cs,
   reg s i = Nat.iter (length cs) g [].
 Proof. exact no_lost_update_new_file. Qed.
 Print Assumptions C07_no_lost_update_new_file.
+
+(* ------------------------------------------------------------------------------------------------
+   The SOURCE, translated (see the same heading in C06.v): Read, Write and Transform of
+   Gen/LockedFileSrc.v -- Go's lockedfile.go translated on every run over an abstract operating
+   system -- are the program terms the theorems above speak about, for every operating system
+   (record os_ops), every world, every argument, every fuel >= 1. *)
+From Coq Require Import ZArith.
+From GI Require Import Lib.GoSem Lib.GoSemWorld.
+From GI Require Import LockedFile.LockedFileA LockedFile.Policy LockedFile.PolicyCall.
+From GI Require Import LockedFile.SrcLib Gen.LockedFileSrc LockedFile.SrcFacts LockedFile.SrcModel LockedFile.SrcTheorems.
+Import GoNotations.
+Local Open Scope go_scope.
+
+Theorem C07_source_Read : forall OS : os_ops, unlock_no_eintr OS ->
+  forall a : attr, stat_static OS (a_regular a) ->
+  forall fuel w name f0 h, 1 <= fuel ->
+  (x <- lf_Read OS fuel w name ;; match x with (w', b, e) => Ok (w', result_of_data b e) end) =
+  (x <- run_prog OS name 0 fuel (prog_of_call_a a CRead) f0 w h WNil ;; Ok (run_out OS x)).
+Proof. exact Read_eq. Qed.
+Print Assumptions C07_source_Read.
+
+(* Write with any content reader (the chunks it delivers, the error it ends with): the program
+   of the model's writer_call with the close part that hands back the error of Close when the
+   copy succeeded (SrcFacts.close_part_w; same operations as close_part: next theorems) *)
+Theorem C07_source_Write : forall OS : os_ops, unlock_no_eintr OS ->
+  forall a : attr, stat_static OS (a_regular a) ->
+  forall fuel w name chunks rerr perm f0 h, 1 <= fuel ->
+  (x <- lf_Write OS fuel w name (chunks, rerr) perm ;; match x with (w', e) => Ok (w', result_of_err e) end) =
+  (x <- run_prog OS name perm fuel (write_prog_a a chunks (negb (werr_is_nil rerr))) f0 w h WNil ;; Ok (run_out OS x)).
+Proof. exact Write_eq. Qed.
+Print Assumptions C07_source_Write.
+
+Theorem C07_source_Write_ops_are_writer_call : forall OS : os_ops, unlock_no_eintr OS ->
+  forall a : attr, stat_static OS (a_regular a) ->
+  forall path perm fuel chunks rerr f0 w h e,
+  (x <- run_prog OS path perm fuel (write_prog_a a chunks rerr) f0 w h e ;; Ok (fst (run_out OS x))) =
+  (x <- run_prog OS path perm fuel (prog_of_call_a a (writer_call chunks rerr)) f0 w h e ;; Ok (fst (run_out OS x))).
+Proof. exact write_prog_world. Qed.
+Print Assumptions C07_source_Write_ops_are_writer_call.
+
+Theorem C07_source_Write_close_part : forall OS : os_ops, unlock_no_eintr OS ->
+  forall path perm fuel x f w h e,
+  run_prog OS path perm fuel (close_part_w x) f w h e =
+  (y <- run_prog OS path perm fuel (close_part x) f w h e ;;
+   match y with (w', f', h', e', _) =>
+     Ok (w', f', h', e', close_result x (res_of_err (cl_e1 OS f w)) (res_of_err (cl_e2 OS f w))) end).
+Proof. exact close_part_w_ops. Qed.
+Print Assumptions C07_source_Write_close_part.
+
+(* Transform with any function t (model_t t: the same function as the model sees it) *)
+Theorem C07_source_Transform : forall OS : os_ops, unlock_no_eintr OS ->
+  forall a : attr, stat_static OS (a_regular a) ->
+  forall fuel w name (t : bytes -> bytes * werr) f0 h, 1 <= fuel ->
+  (x <- lf_Transform OS fuel w name t ;; match x with (w', e) => Ok (w', result_of_err e) end) =
+  (x <- run_prog OS name 438 fuel (prog_of_call_a a (CTransform (model_t t))) f0 w h WNil ;; Ok (run_out OS x)).
+Proof. exact Transform_eq. Qed.
+Print Assumptions C07_source_Transform.
+
+(* the translated Transform run on the MODEL's operating system (SrcModel.model_ops: the OS of
+   LockedFile.v under a fault policy), alone on a file holding old *)
+
+(* a size limit L, every write storing what fits and then failing, the rollback's writes too:
+   all-or-nothing, everything released *)
+Theorem C07_source_transform_limit_atomic : forall (t : bytes -> bytes * werr) old L fuel name, 1 <= fuel ->
+  match lf_Transform (model_ops 0 0 (limit_pol L)) fuel (os_with (Some old), []) name t with
+  | Ok (w', e) =>
+      fds (fst w') 0 = None /\ (forall k, holds 0 k (ltab (fst w') 0) = false) /\
+      ((werr_is_nil e = true /\ model_t t old = Some (contents w')) \/
+       (werr_is_nil e = false /\ contents w' = old))
+  | _ => False
+  end.
+Proof. exact source_transform_limit_atomic. Qed.
+Print Assumptions C07_source_transform_limit_atomic.
+
+(* no faults: Transform returns nil and the file holds the function's result, whatever it is *)
+Theorem C07_source_transform_publishes : forall (t : bytes -> bytes * werr) old new fuel name, 1 <= fuel ->
+  model_t t old = Some new ->
+  match lf_Transform (model_ops 0 0 no_fault_pol) fuel (os_with (Some old), []) name t with
+  | Ok (w', e) =>
+      werr_is_nil e = true /\ contents w' = new /\
+      fds (fst w') 0 = None /\ (forall k, holds 0 k (ltab (fst w') 0) = false)
+  | _ => False
+  end.
+Proof. exact source_transform_publishes. Qed.
+Print Assumptions C07_source_transform_publishes.
+
+(* ANY policy that faults file I/O only: an error return never loses bytes *)
+Theorem C07_source_transform_err_keeps_old_tail : forall pol' (t : bytes -> bytes * werr) old fuel name, 1 <= fuel ->
+  io_faults_only pol' ->
+  match lf_Transform (model_ops 0 0 pol') fuel (os_with (Some old), []) name t with
+  | Ok (w', e) =>
+      werr_is_nil e = false ->
+      length old <= length (contents w') /\
+      forall new, model_t t old = Some new ->
+        forall j, length new <= j -> j < length old -> nth j (contents w') x00 = nth j old x00
+  | _ => True
+  end.
+Proof. exact source_transform_err_keeps_old_tail. Qed.
+Print Assumptions C07_source_transform_err_keeps_old_tail.
+
+(* the translated Transform run on the operating system of the model's faulty body semantics
+   (SrcBody.body_ops plan: open, flock and close succeed; file I/O as LockedFile.io_step, the n-th
+   I/O operation of the call suffering plan n): with a SINGLE faulty operation anywhere -- a failing
+   write may have stored any prefix of its data -- the source's Transform is all-or-nothing *)
+From GI Require Import LockedFile.SrcBody.
+
+Theorem C07_source_transform_fault_atomic : forall (t : bytes -> bytes * werr) old plan fd fuel name, 1 <= fuel ->
+  acc_writable (fd_acc fd) = true -> acc_readable (fd_acc fd) = true -> fd_off fd = 0 ->
+  single_fault plan ->
+  match lf_Transform (body_ops plan) fuel (old, fd, 0) name t with
+  | Ok ((b', _, _), e) =>
+      (werr_is_nil e = true /\ model_t t old = Some b') \/
+      (werr_is_nil e = false /\ b' = old /\ (model_t t old = None \/ exists j, plan j <> FNone))
+  | _ => False
+  end.
+Proof. exact source_transform_fault_atomic. Qed.
+Print Assumptions C07_source_transform_fault_atomic.
